@@ -67,6 +67,7 @@ def run(replay=None):
     maxlen = 4 if thorough else 3
     deltas = '0, 1' if thorough else '0, 1, 2'
     nb = 0
+    localised = 0
     B = 30
     for react in ('FALSE', 'TRUE'):
         # re-activation only concerns after-until scopes
@@ -83,14 +84,21 @@ def run(replay=None):
             os.unlink(path)
             rep.add_tlc(res)
             nb += 1
-            if res['violated']:
-                # find the offending properties one by one (cheap: the batch is small)
+            if res['violated'] and localised >= 3:
+                rep.violation('%s|batch:%s..|reactivate=%s' % (res['violated'], batch[0]['text'], react),
+                              '%s violated by some property of the batch starting with %r (reactivate=%s)' % (res['violated'], batch[0]['text'], react),
+                              {'batch': [p['text'] for p in batch], 'invariant': res['violated'], 'reactivate': react})
+            elif res['violated']:
+                # find the offending properties one by one (only for the first few batches: each rerun costs seconds)
                 for pr in batch:
+                    if localised >= 3:
+                        break
                     with open(path, 'w') as f:
                         json.dump([pr], f)
                     r1 = tlc.run_model('MC_Monitor', cfg_text=CFG % (deltas, maxlen, react), env={'PROPS_FILE': path}, timeout=3400)
                     os.unlink(path)
                     if r1['violated']:
+                        localised += 1
                         trace = [l for l in r1['out'].splitlines() if l.startswith('tr = ') or l.startswith('/\\ tr')][-1:]
                         rep.violation('%s|%s|reactivate=%s' % (r1['violated'], pr['text'], react),
                                       '%s violated: a trace distinguishes %r from its canonical form (reactivate=%s)' % (r1['violated'], pr['text'], react),
